@@ -5,7 +5,11 @@ A real Cluster + Session over the virtual server.  Every connection ever constru
 host reconnection probe), in which shutdown phase it was opened and in which phase its handshake
 completed.  `judge()` is the oracle: it first drains the world by a fixed default continuation
 (answers delivered, queued tasks run FIFO, scheduler entries fired in deadline order) and then
-looks at the set of open connections and probes the API (`execute_async`, `connect`).
+looks at the set of open connections, at every connection ATTEMPT (constructed `C45Conn`, also
+refused ones and ones closed again at once: in which shutdown phase its activity began, and in
+which phase the previous attempt of the same activity had ended) and probes the API
+(`execute_async`, `connect`).  The virtual nodes can fail a new connection in every way a node
+can (`FAULTS`), and the application can change the session keyspace (`use_keyspace`).
 """
 import sys
 
@@ -210,7 +214,7 @@ FAULTS = {'refuse': ('refuse', 0), 'eof0': ('eof', 0), 'eof2': ('eof', 2), 'err1
 
 def conn_name(c):
     return 'c%d(%s %s opened:%s handshake:%s%s)' % (c.vid, c.creator, c.endpoint.address, c.open_phase or 'before',
-                                                    c.handshake_phase, ' CLOSED' if c.is_closed else ' OPEN')
+                                                    c.handshake_phase, ' REFUSED' if not c.opened else ' CLOSED' if c.is_closed else ' OPEN')
 
 
 class C45World(object):
